@@ -10,6 +10,8 @@ import (
 	"strings"
 )
 
+var _ = bits.Len64
+
 type Op uint8
 
 const (
@@ -54,6 +56,16 @@ const (
 	OpINeg
 	OpUBV2Int
 	OpSBV2Int
+	// IEEE-754 binary64 carried as its 64 bit pattern (W == 64); see fp.go
+	OpFMul
+	OpFAdd
+	OpFSub
+	OpFDiv
+	OpFLt // Bool
+	OpFLe // Bool
+	OpFEq // Bool (IEEE equality: NaN != NaN, +0 == -0)
+	OpFFromS // signed 64-bit integer -> float64 bits (round to nearest even)
+	OpFToS   // float64 bits -> signed 64-bit integer, truncating; out of range / NaN = 0x8000000000000000 (amd64 CVTTSD2SI)
 )
 
 var opNames = map[Op]string{
@@ -64,6 +76,8 @@ var opNames = map[Op]string{
 	OpUlt: "bvult", OpUle: "bvule", OpSlt: "bvslt", OpSle: "bvsle", OpConcat: "concat",
 	OpIAdd: "+", OpISub: "-", OpIMul: "*", OpIDiv: "div", OpIMod: "mod", OpILt: "<", OpILe: "<=", OpINeg: "-",
 	OpUBV2Int: "ubv_to_int", OpSBV2Int: "sbv_to_int",
+	OpFMul: "f64.mul", OpFAdd: "f64.add", OpFSub: "f64.sub", OpFDiv: "f64.div", OpFLt: "f64.lt", OpFLe: "f64.le", OpFEq: "f64.eq",
+	OpFFromS: "f64.from_s64", OpFToS: "f64.to_s64",
 }
 
 // Width conventions: 0 = Bool, 1..64 = bit-vector, IntW = mathematical Int.
@@ -1227,6 +1241,8 @@ func (f *Factory) emitRec(sb *strings.Builder, root *Term) {
 			fmt.Fprintf(sb, "((_ zero_extend %d) %s)", t.W-t.Args[0].W, t.Args[0].ref())
 		case OpSext:
 			fmt.Fprintf(sb, "((_ sign_extend %d) %s)", t.W-t.Args[0].W, t.Args[0].ref())
+		case OpFMul, OpFAdd, OpFSub, OpFDiv, OpFLt, OpFLe, OpFEq, OpFFromS, OpFToS:
+			sb.WriteString(fpSMT(t))
 		default:
 			sb.WriteString("(" + opNames[t.Op])
 			for _, a := range t.Args {
@@ -1278,6 +1294,8 @@ func (f *Factory) emitRec2(sb *strings.Builder, root *Term) {
 			fmt.Fprintf(sb, "((_ zero_extend %d) %s)", t.W-t.Args[0].W, t.Args[0].ref())
 		case OpSext:
 			fmt.Fprintf(sb, "((_ sign_extend %d) %s)", t.W-t.Args[0].W, t.Args[0].ref())
+		case OpFMul, OpFAdd, OpFSub, OpFDiv, OpFLt, OpFLe, OpFEq, OpFFromS, OpFToS:
+			sb.WriteString(fpSMT(t))
 		default:
 			sb.WriteString("(" + opNames[t.Op])
 			for _, a := range t.Args {
@@ -1452,6 +1470,8 @@ func (f *Factory) Eval(t *Term, env map[string]uint64, memo map[int]uint64) uint
 		r = a[0]
 	case OpSext:
 		r = uint64(sext64(a[0], aw))
+	case OpFMul, OpFAdd, OpFSub, OpFDiv, OpFLt, OpFLe, OpFEq, OpFFromS, OpFToS:
+		r = fpEval(t.Op, a[0], a[1])
 	default:
 		panic("Eval: unsupported op")
 	}
@@ -1533,6 +1553,12 @@ func (f *Factory) Rebuild(t *Term, a []*Term) *Term {
 		return f.BV2Int(a[0], false)
 	case OpSBV2Int:
 		return f.BV2Int(a[0], true)
+	case OpFMul, OpFAdd, OpFSub, OpFDiv, OpFLt, OpFLe, OpFEq:
+		return f.FBin(t.Op, a[0], a[1])
+	case OpFFromS:
+		return f.FFromS(a[0])
+	case OpFToS:
+		return f.FToS(a[0])
 	}
 	panic("Rebuild: unknown op")
 }
